@@ -100,3 +100,7 @@ SUBCHECKS = [
     Sub('boundary-sizes', check, enum=enum_boundary, classify=classify, nontrivial=nt, shards=(16, 24), case_cpu_s=600),
     Sub('dags-x-6-optionsets', check, strategy=strat, classify=classify, nontrivial=nt, n=(1500, 30000), shards=(16, 32)),
 ]
+
+# the same generated cases, several at a time, checked by threads that run at the same time (core.run_overlapping): per-call state
+# kept in a place two calls share shows only there
+SUBCHECKS.append(__import__('harness.core', fromlist=['overlapped']).overlapped(next(s for s in SUBCHECKS if s.name == 'dags-x-6-optionsets'), k=2, n=(30, 800)))
